@@ -82,7 +82,7 @@ def lemma2(report, cands):
     alpha = toklex.full_alphabet()
     q = checklib.tier() == "quick"
     ctxs = []
-    for c, n in c02.contexts(checklib.tier()) + c03.contexts(checklib.tier(), rare=False) + c05.contexts(checklib.tier()):
+    for c, n in c02.contexts(checklib.tier()) + c03.contexts(checklib.tier()) + c05.contexts(checklib.tier()):
         if isinstance(c, PatCtx):
             if "+pragma" in c.name or (q and sum(1 for w in c.pattern if w in c.classes) >= 3):
                 continue
